@@ -228,7 +228,11 @@ func copyAny(v any) any {
 // ---- operations ----
 
 func setEnv(tables any) {
+	cov := os.Getenv("GOCOVERDIR") // measurement aid (VERIF_COVERDIR): kept across the reset
 	os.Clearenv()
+	if cov != "" {
+		os.Setenv("GOCOVERDIR", cov)
+	}
 	tm, _ := tables.(map[string]any)
 	env, _ := tm["env"].(map[string]any)
 	for k, v := range env {
